@@ -149,6 +149,11 @@ func (ex *Exec) codecIntrinsic(fn *ssa.Function, name string, args []Value) (Val
 			arr.vals[i] = t
 		}
 		return arr, true
+	case "(*encoding/base64.Encoding).DecodeString":
+		// only reached from the OSC52 clipboard helper: the clipboard is outside every claim
+		return Tuple{ex.zero(types.NewSlice(types.Typ[types.Byte])), ex.errValue("base64 (clipboard stub)")}, true
+	case "github.com/atotto/clipboard.WriteAll":
+		return Iface{}, true
 	case "encoding/base64.NewEncoder":
 		return Iface{t: coderT, v: &CoderObj{kind: "b64enc", inner: args[1]}}, true
 	case "encoding/base64.NewDecoder":
